@@ -9,8 +9,9 @@ def exc_tag(rng):
 
 
 class GenRun:
-    def __init__(self, rng, is_async=False, faults=0.0, awaits=0.0):
+    def __init__(self, rng, is_async=False, faults=0.0, awaits=0.0, new_style=0.0):
         self.rng = rng
+        self.new_style = new_style      # share of classes that define __new__ and no __init__
         self.is_async = is_async
         self.faults = faults
         self.awaits = awaits
@@ -70,7 +71,7 @@ class GenRun:
                 low = min(rank[("meth", o, m)] for o in insts)
                 meths.append(self.script([u for u in everything if rank[tuple(u)] < low], allow_false=False))
             init = self.script([], allow_false=False)   # filled per instance below (self-calls)
-            classes.append({"invs": invs, "meths": meths, "init": init})
+            classes.append({"invs": invs, "meths": meths, "init": init, "new": rng.random() < self.new_style})
         # constructors may call methods of the instance under construction: expressed with the "self" pseudo-target
         for c in range(nc):
             acts = []
@@ -88,7 +89,7 @@ class GenRun:
         prog = self.program()
         ops = []
         for o in range(len(prog["objs"])):
-            ops.append({"target": ["init", o], "plan": {}})
+            ops.append({"target": ["new" if prog["classes"][prog["objs"][o]].get("new") else "init", o], "plan": {}})
         targets = [["fn", f] for f in range(len(prog["fns"]))] + \
                   [["meth", o, m] for o, c in enumerate(prog["objs"]) for m in range(len(prog["classes"][c]["meths"]))]
         for _ in range(rng.choice([2, 3, 4])):
@@ -107,6 +108,8 @@ def cq_target(t, self_obj=None):
         return "(TMeth %d %d)" % (t[1], t[2])
     if t[0] == "init":
         return "(TInit %d)" % t[1]
+    if t[0] == "new":
+        return "(TNew %d)" % t[1]
     if t[0] == "selfmeth":
         return "(TMeth %d %d)" % (self_obj, t[1])
     raise ValueError(t)
@@ -311,6 +314,11 @@ def tree_size(prog, target, sigma=frozenset(), cap=400, self_obj=None):
             o = t[1]
             cd = prog["classes"][prog["objs"][o]]
             key = ("o", o)
+            if t[0] == "new":        # nothing is suspended around __new__ and the invariants after it
+                script(cd["init"], sig, o)
+                for sc in cd["invs"]:
+                    script(sc, sig, o)
+                return
             body = cd["init"] if t[0] == "init" else cd["meths"][t[2]]
             if key in sig:
                 script(body, sig, o)
